@@ -259,6 +259,50 @@ def generate(rng, tier, seed):
             if m:
                 c.fail(f"key block after hostile input was offered: {m}: {w.value[:60]!r}")
         yield c
+    # optional blocks whose id is the pad block's in another letter case (pb, Pb, pB): the serialiser emits them like any block, so the
+    # count, the section sizes and the length field must still be right (what load makes of them is outside the property)
+    for ver in "ABCD":
+        for bid in ("pb", "Pb", "pB"):
+            for others in (0, 1, 2):
+                blocks = rand_blocks(rng, others) + [(bid, rs(rng, rng.randrange(0, 9)))]
+                rng.shuffle(blocks)
+                c = Case(f"{ver}:pad-like-block-id", {"id": bid, "blocks": len(blocks)})
+                h = make_header(rng, ver, blocks)
+                w = wrap_case(c, rb(rng, 16), h, rb(rng, rng.choice([8, 16])), None)
+                if w.ok:
+                    m = framing(w.value, ver, h)
+                    if m:
+                        c.fail(f"key block with an optional block {bid!r}: {m}")
+                yield c
+    # hostile characters offered through header TEXT (loaded by the object, or given to wrap): at every position of the fixed 16
+    # characters - the length digits, the count and the reserved field included - and in block id, length and data. Whatever is
+    # accepted must serialise to printable ASCII that is framed
+    for k, ch in enumerate(hostile):
+        for pos in list(range(0, 16)) + [16, 17, 18, 19, 20, 22]:
+            if tier == "quick" and (k + pos) % 3 and pos not in (14, 15):
+                continue
+            ver = "ABCD"[(k + pos) % 4]
+            base = str(make_header(rng, ver, [("KS", "abcdef")], reserved="00"))
+            text = base[:pos] + ch + base[pos + 1:]
+            c = Case("hostile-character-in-header-text", {"pos": pos, "cp": ord(ch)})
+            se = Session(c, rb(rng, 16), None)
+            ld = se.load(text)
+            if ld.ok:
+                r = se.str()
+                if r.ok and not all(32 <= ord(x) <= 126 for x in r.value):
+                    c.fail(f"a header text with U+{ord(ch):04X} at position {pos} was loaded and str(header) is not printable ASCII")
+                w = se.wrap(rb(rng, 16), None)
+                if w.ok:
+                    if not all(32 <= ord(x) <= 126 for x in w.value):
+                        c.fail(f"a header text with U+{ord(ch):04X} at position {pos} was loaded and the key block is not printable ASCII")
+                    else:
+                        m = framing(w.value, se.kb.header.version_id, se.kb.header)
+                        if m:
+                            c.fail(f"key block from a header text with U+{ord(ch):04X} at position {pos}: {m}")
+            w2 = wrap_case(c, rb(rng, 16), text, rb(rng, 16), None)
+            if w2.ok and not all(32 <= ord(x) <= 126 for x in w2.value):
+                c.fail(f"wrap(kbpk, header text with U+{ord(ch):04X} at position {pos}, key) returned a key block that is not printable ASCII")
+            yield c
     # serialise, switch the version (block size 8 <-> 16) with no other change, serialise again: every residue of the block length
     for total in range(0, 34):
         for v1, v2 in (("A", "D"), ("B", "D"), ("D", "B"), ("C", "D")):
